@@ -7,7 +7,7 @@ from .. import scenario
 ID = "C04"
 LEVEL = "exploration"
 RULE = ("five case families: (0) SIZE boundaries of the file format - string literals of 250 ... 70 000 bytes around every power of two, functions capturing up to 300 variables, files with up to 1 200 functions, names of 1 000 characters, class and method names (function labels) of up to 300 characters, jumps over 12 000 statements, literals with 1 000 elements, 250 parameters - each with a computed expected output; (0b) REPEATED LABELS - same-named classes in two function bodies, in the if and the else block, at module level and inside a function, same-named inner functions and methods, with the first, the second or both in use (differential only); (1) every .ms file of the repository's example corpus as entry point of a copy of its directory; "
-        "(1a) a FIRST-STATEMENT family: every looping / branching statement as the first statement of a program and of a function body of every kind (parameterless, with a parameter, void, closure, method, constructor, callback, function in a list); (1b) a RECOMPILE family: the same programs compiled into a directory that already holds the bytecode of an earlier, longer program under the same file name (the edit / recompile cycle); "
+        "(1a) a FIRST-STATEMENT family: every looping / branching statement as the first statement of a program and of a function body of every kind (parameterless, with a parameter, void, closure, method, constructor, callback, function in a list); (1a') a LAST-STATEMENT family: the same statements as the last statement of a program and of a void function body of every kind; (1b) a RECOMPILE family: the same programs compiled into a directory that already holds the bytecode of an earlier, longer program under the same file name (the edit / recompile cycle); "
         "(2) programs from the generators of C01, C07, C08, C12, C13, C15 and the two-module failing programs of C17 "
         "(Hypothesis); (3) 80 string VALUES that read like tokens of another lexical class (numbers in every spelling, booleans, keywords, instruction / register / label names, paths, comment openers); every ASCII character (0-127) and seven further code points alone, doubled, embedded and next to a quote / backslash / space; EXHAUSTIVELY all string literals up to length 3 (quick: + a seeded sample of length 4; thorough: all "
         "of length 4) over the alphabet {quote, backslash, space, TAB, LF, CR, n, r, t, a, e-acute, emoji, NBSP, U+3000, VT, NUL} in escaped and raw "
@@ -349,6 +349,34 @@ def first_statement_cases():
     return out
 
 
+def last_statement_cases():
+    """every looping / branching statement as the LAST statement of a program and of a void function body of every kind: the
+    exits of the statement (loop condition false, break, the end of a branch) land on whatever the compiler puts behind the body"""
+    lasts = {"while-countdown": "while total > 10 {\n\tmodify total = total - 4\n}", "while-break": "while true {\n\tif total > 0 {\n\t\tbreak\n\t}\n}",
+             "while-continue": "while total > 10 {\n\tmodify total = total - 4\n\tif total > 12 {\n\t\tcontinue\n\t}\n\tprint total\n}",
+             "while-zero-iterations": "while total > 100 {\n\tprint \"never\"\n}", "from-fresh-counter": "from 0 to 3, i {\n\tprint i\n}",
+             "from-reused-counter": "from 0 to 3, reused {\n\tprint reused\n}", "from-anonymous": "from 0 to 2 {\n\tprint \"it\"\n}",
+             "from-break": "from 0 to 5, i {\n\tif i == 2 {\n\t\tbreak\n\t}\n}", "if-without-else": "if total > 10 {\n\tprint \"big\"\n}",
+             "if-else": "if total > 100 {\n\tprint \"huge\"\n} else {\n\tprint \"small\"\n}", "if-holding-while": "if total > 10 {\n\twhile total > 10 {\n\t\tmodify total = total - 4\n\t}\n}",
+             "else-holding-from": "if total > 100 {\n\tprint \"huge\"\n} else {\n\tfrom 0 to 2, i {\n\t\tprint i\n\t}\n}", "while-in-while": "while total > 10 {\n\twhile total > 14 {\n\t\tmodify total = total - 4\n\t}\n\tmodify total = total - 4\n}"}
+    ind = lambda text, n: "\n".join("\t" * n + l for l in text.split("\n"))
+    out = []
+
+    def add(name, src):
+        out.append({"family": "last-statement", "origin": "last-statement:" + name, "files": {"main.ms": src}})
+    for n, st_ in lasts.items():
+        pre = "total = 22\nreused = 0\n"
+        local = "\treused = 0\n"
+        add("program:" + n, pre + "print \"go\"\n" + st_.replace("modify ", "") + "\n")
+        add("void-function:" + n, pre + "f = fn() {\n" + local + ind(st_, 1) + "\n}\nf()\nf()\nprint total\n")
+        add("void-function-with-parameter:" + n, pre + "f = fn(q: int) {\n" + local + "\tprint q\n" + ind(st_, 1) + "\n}\nf(1)\nprint total\n")
+        add("void-closure:" + n, pre + "mk = fn() -> fn() {\n\treturn fn() {\n\t" + local + ind(st_, 2) + "\n\t}\n}\ng = mk()\ng()\nprint total\n")
+        add("void-method:" + n, pre + "class K {\n\tfn m(self) {\n\t" + local + ind(st_, 2) + "\n\t}\n}\nk = K()\nk.m()\nk.m()\nprint total\n")
+        add("constructor:" + n, pre + "class K {\n\tv: int\n\tconstructor(self) {\n\t\tself.v = 1\n\t" + local + ind(st_, 2) + "\n\t}\n}\nk = K()\nprint k.v + total\n")
+        add("void-method-called-from-method:" + n, pre + "class K {\n\tfn m(self) {\n\t" + local + ind(st_, 2) + "\n\t}\n\tfn twice(self) -> int {\n\t\tself.m()\n\t\tself.m()\n\t\treturn total\n\t}\n}\nk = K()\nprint k.twice()\n")
+    return out
+
+
 def recompile_cases():
     """the edit / recompile cycle: `compile` writes main.mmm over the output of an earlier, LONGER program of the same name;
     what `execute` then runs must be the new program and nothing else"""
@@ -365,7 +393,7 @@ def recompile_cases():
 
 
 def enumerated(tier, seed):
-    return corpus_cases() + size_cases() + label_cases() + first_statement_cases() + recompile_cases() + string_cases(tier, seed)
+    return corpus_cases() + size_cases() + label_cases() + first_statement_cases() + last_statement_cases() + recompile_cases() + string_cases(tier, seed)
 
 
 def strategy(tier):
